@@ -158,3 +158,84 @@ Definition select_crit (ra : bool) (gain pt ext : Q) (lib : list amp) : Q :=
             | _ => []
             end in
   qmin_list 1 (c1 ++ c2 ++ c3).
+
+(* ------------------------------------------------------------------ multiband amplifiers *)
+(* Modelled code: get_node_restrictions, Multiband_amplifier branch (1129-1145); preselect_multiband_amps (880-953);
+   equipment.find_type_varieties / find_type_variety (92-136); the Multiband_amplifier branch of
+   set_egress_amplifier (1247-1281: per band restriction filter, set_one_amplifier's library filter 1018-1021).
+   A multiband model (type_def 'multi_band') is a named group of single-band entries. *)
+Record mgroup := mkG { g_name : string; g_allowed : bool; g_members : list string }.
+
+Fixpoint lookup_amp (n : string) (lib : list amp) : option amp :=
+  match lib with [] => None | a :: t => if String.eqb (a_name a) n then Some a else lookup_amp n t end.
+Fixpoint lookup_group (n : string) (gs : list mgroup) : option mgroup :=
+  match gs with [] => None | g :: t => if String.eqb (g_name g) n then Some g else lookup_group n t end.
+
+Definition covers_name (lib : list amp) (bmin bmax : Q) (t : string) : bool :=
+  match lookup_amp t lib with Some a => covers a bmin bmax | None => false end.
+Definition covers_any (lib : list amp) (bands : list (Q * Q)) (t : string) : bool :=
+  existsb (fun b => covers_name lib (fst b) (snd b) t) bands.
+
+(* get_node_restrictions for a Multiband_amplifier: the multiband models of the applicable restriction list (or, when
+   none applies, those allowed for design) all of whose member amplifiers cover one of the design bands *)
+Definition multi_restrictions (nd : anode) (prev next : neigh) (bands : list (Q * Q)) (lib : list amp)
+                              (groups : list mgroup) : list string :=
+  if negb (String.eqb (n_variety nd) "") then [n_variety nd]
+  else
+    let r := restr_list nd prev next in
+    map g_name (filter (fun g => (smem (g_name g) r || (isnil r && g_allowed g))
+                                 && forallb (covers_any lib bands) (g_members g)) groups).
+
+(* keys of a dict comprehension: first occurrences, in order *)
+Fixpoint dedup_acc (seen l : list string) : list string :=
+  match l with [] => [] | x :: t => if smem x seen then dedup_acc seen t else x :: dedup_acc (x :: seen) t end.
+Definition dedup (l : list string) : list string := dedup_acc [] l.
+
+Definition members_of (groups : list mgroup) (sel : list string) : list string :=
+  flat_map (fun m => match lookup_group m groups with Some g => g_members g | None => [] end) sel.
+(* find_type_varieties for one single-band entry: every multiband model of the LIBRARY that lists it *)
+Definition groups_of (groups : list mgroup) (t : string) : list string :=
+  map g_name (filter (fun g => smem t (g_members g)) groups).
+
+(* edfa_eqpt of one band in preselect_multiband_amps *)
+Definition band_cands (lib : list amp) (groups : list mgroup) (sel : list string) (bmin bmax : Q) : list amp :=
+  flat_map (fun t => match lookup_amp t lib with
+                     | Some a => if covers a bmin bmax then [a] else []
+                     | None => []
+                     end) (dedup (members_of groups sel)).
+
+(* preselect_multiband_amps: band after band (bmin, bmax, gain target, power target), keep the multiband models that
+   list an amplifier passing the gain/power filter (Raman always allowed here); returns the surviving models *)
+Fixpoint preselect (lib : list amp) (groups : list mgroup) (ext : Q) (sel : list string)
+                   (bts : list (Q * Q * Q * Q)) : res (list string) :=
+  match bts with
+  | [] => Ok sel
+  | (bmin, bmax, gain, pt) :: rest =>
+      let* acc := acc_gain true gain (band_cands lib groups sel bmin bmax) in
+      let chosen := map a_name (acc_power ext gain pt acc) in
+      preselect lib groups ext (dedup (flat_map (groups_of groups) chosen)) rest
+  end.
+
+(* the selection of one band's amplifier once restrictions_edfa is known: the per band filter of
+   set_egress_amplifier, then set_one_amplifier's `if restrictions:` (an empty list restricts nothing) *)
+Definition band_select (lib : list amp) (redfa : list string) (prev : neigh) (maxl bmin bmax gain pt ext : Q)
+                       (nf : amp -> Q) : res (amp * Q) :=
+  let r := filter (covers_name lib bmin bmax) redfa in
+  let eq := filter (fun a => negb (a_multi a) && (isnil r || smem (a_name a) r)) lib in
+  select_edfa (raman_allowed prev maxl) gain pt ext nf eq.
+
+(* restrictions_edfa of a Multiband_amplifier node without imposed type_variety *)
+Definition multi_redfa (nd : anode) (prev next : neigh) (lib : list amp) (groups : list mgroup) (ext : Q)
+                       (bts : list (Q * Q * Q * Q)) : res (list string * list string) :=
+  let mr := multi_restrictions nd prev next (map (fun b => (fst (fst (fst b)), snd (fst (fst b)))) bts) lib groups in
+  if negb (String.eqb (n_variety nd) "") then
+    match lookup_group (n_variety nd) groups with
+    | Some g => Ok (mr, g_members g)
+    | None => Err "KeyError:type_variety"
+    end
+  else
+    let* sel := preselect lib groups ext mr bts in Ok (mr, members_of groups sel).
+
+(* find_type_variety: the chosen single-band entries must belong to one multiband model of the library *)
+Definition common_groups (groups : list mgroup) (chosen : list string) : list string :=
+  map g_name (filter (fun g => forallb (fun t => smem t (g_members g)) chosen) groups).
